@@ -76,8 +76,10 @@ def scan_file(path, rel):
                         if depth == 0:
                             break
                     j += 1
+                m_pv = re.search(r"\bpub\b(\s*\([^)]*\))?\s+(?:struct|enum|union)\b", header)
                 out["%s :: %s %s" % (rel, m_st.group(1), m_st.group(2))] = {
                     "file": rel, "impl": "", "fn": "", "unsafe": False,
+                    "vis": "" if not m_pv else ("pub" if not m_pv.group(1) else "restricted"),
                     "fields": re.sub(r"\s+", " ", re.sub(r"#\[[^\]]*\]", "", src[i + 1:j])).strip()}
             if m_fn and not any(k == "fn" for k, _ in stack):
                 impl = next((h for k, h in reversed(stack) if k == "impl"), "")
@@ -98,7 +100,9 @@ def scan_file(path, rel):
                     c += 1
                     k2 = "%s #%d" % (key, c)
                 fn_at = last + src[last:i].find(m_fn.group(0).split()[0] if False else "fn " + m_fn.group(1))
-                out[k2] = {"file": rel, "impl": impl, "fn": m_fn.group(1),
+                m_vis = re.search(r"\bpub\b(\s*\([^)]*\))?(?=[^;{}]*\bfn\s+" + re.escape(m_fn.group(1)) + r"\b)", header)
+                vis = "" if not m_vis else ("pub" if not m_vis.group(1) else "restricted")
+                out[k2] = {"file": rel, "impl": impl, "fn": m_fn.group(1), "vis": vis,
                            "line": src.count("\n", 0, fn_at) + 1,
                            "unsafe": bool(re.search(r"\bunsafe\b", header + body))}
                 stack.append(("fn", header))
@@ -130,18 +134,48 @@ def scan(repo):
     return out
 
 
+def impl_type(impl):
+    """name of the type an impl block is for."""
+    h = impl_id(impl)
+    m = re.search(r"\bfor\s+&?\s*(?:'\w+\s+)?(?:mut\s+)?([A-Za-z_][A-Za-z0-9_]*)", h)
+    if m:
+        return m.group(1)
+    m = re.match(r"([A-Za-z_][A-Za-z0-9_]*)", h)
+    return m.group(1) if m else ""
+
+
+def is_surface(v, public_types):
+    """does this item add to what a user of the crate can call?  A `pub fn`, or a method of a trait
+    implemented for a public type (an override of a provided method, a new trait impl).  Private and
+    crate-visible helpers are reachable only through the existing entry points, which the
+    correspondence exercises; private types (serde visitors) are not reachable at all."""
+    if not v.get("fn"):
+        return False
+    if " for " in impl_id(v["impl"]) and v["impl"]:
+        return impl_type(v["impl"]) in public_types
+    return v.get("vis") == "pub"
+
+
 def compare(repo="/repo"):
-    """-> (added, removed): functions of the tree that the baseline does not list / lists but are gone."""
+    """-> (added, removed, notes): PUBLIC-SURFACE functions of the tree that the baseline does not list;
+    baseline functions that are gone; other differences (new private helpers, changed fields) as notes."""
     cur = scan(repo)
     base = json.load(open(BASE))["functions"]
     for v in cur.values():
         v.pop("line", None)
-    added = {k: v for k, v in cur.items() if k not in base}
+    public_types = {k.split()[-1] for k, v in cur.items() if "fields" in v and v.get("vis") == "pub"}
+    public_types |= {"Map", "Set"}
+    added, notes = {}, []
     for k, v in cur.items():
-        if k in base and "fields" in v and v["fields"] != base[k].get("fields"):
-            added[k + " (fields changed)"] = v
+        if k not in base:
+            if is_surface(v, public_types):
+                added[k] = v
+            else:
+                notes.append("new item outside the public surface: " + k)
+        elif "fields" in v and v["fields"] != base[k].get("fields"):
+            notes.append("fields changed: " + k)
     removed = [k for k in base if k not in cur]
-    return added, removed
+    return added, removed, notes
 
 
 def main():
@@ -153,11 +187,12 @@ def main():
         for k, v in cur.items():
             v["model"] = old.get(k, {}).get("model", "")
             v.pop("line", None)          # line numbers are not part of the baseline
+            v.pop("vis", None) if False else None
         json.dump({"functions": cur}, open(BASE, "w"), indent=1, sort_keys=True)
         print("wrote %d functions to %s" % (len(cur), BASE))
         return
-    added, removed = compare(repo)
-    print(json.dumps({"functions": len(cur), "added": sorted(added), "removed": removed}))
+    added, removed, notes = compare(repo)
+    print(json.dumps({"functions": len(cur), "added": sorted(added), "removed": removed, "notes": notes}))
 
 
 if __name__ == "__main__":
